@@ -14,7 +14,7 @@ DISTINCT_RULE = (
     "strategies with different subscriptions (incl. an empty filter), 1-3 clients, raw-data recorder mode, live mode with a virtual clock for the one-hour rule; "
     "distinct = (script shape, strategies, clients, mode) cells"
 )
-RULES = ["closing-update", "callback", "release", "reopen", "live-removal", "raw-close"]
+RULES = ["closing-update", "callback", "release", "reopen", "live-removal", "raw-close", "line-result"]
 MINIMA = {"quick": {"rule_closing-update": 1500, "rule_callback": 3000, "rule_release": 1500, "rule_reopen": 150, "rule_live-removal": 300, "rule_raw-close": 100}, "thorough": {"rule_closing-update": 50000}}
 ASSUMPTIONS = [
     "all counts are per closing update (the statement's 'for each closing update received')",
@@ -28,6 +28,7 @@ def plan(tier, seed):
     cases = [{"mode": "sim", "seed": seed, "idx": i} for i in range(n)]
     cases += [{"mode": "live", "seed": seed, "idx": i} for i in range(120 if tier == "quick" else 4000)]
     cases += [{"mode": "raw", "seed": seed, "idx": i} for i in range(200 if tier == "quick" else 3000)]
+    cases += [{"mode": "line", "seed": seed, "idx": i} for i in range(60 if tier == "quick" else 1200)]
     # directed case for the listed finding C20-first-update-closed
     cases.insert(0, {"mode": "sim", "seed": seed, "idx": 3, "directed_first_closed": True})
     return cases
@@ -317,6 +318,14 @@ def run_live(desc, out):
                     mk = w.fw.markets.markets.get(ev.event.market_id)
                     if mk is not None and not mk.closed:
                         out.v("market-not-marked-closed", {"shape": "live", "known_market": True}, market=ev.event.market_id)
+                    if mk is not None and mk.closed and rng.random() < 0.5:
+                        # the market-closure worker: first poll finds the orders cleared, a later poll the market summary - two flags
+                        had_ = bool(mk.market_cleared)
+                        mk.orders_cleared.append("c")
+                        out.rule("reopen")
+                        if mk.market_cleared and not had_:
+                            out.v("cleared-flags-not-independent", {"reopened": ev.event.market_id in reopened}, market=ev.event.market_id)
+                        mk.market_cleared.append("c")
             mk = w.market(mid)
             if mk is not None and mb.status != "CLOSED":
                 if mid in close_time:
@@ -394,8 +403,35 @@ def run_raw(desc, out):
         livecases.finish(w)
 
 
+def run_line(desc, out):
+    """A line market closes: every order receives the market's settlement terms - the line result the application supplied, whatever
+    its value (a total of 0 is a result like any other)."""
+    from . import c08
+
+    case, snaps = c08.build({"seed": desc["seed"], "idx": desc["idx"], "kind": "line"})
+    mid = case["markets"][0]["id"]
+    want = (0, 0.0, 3.0, 17.0, 0, 1.0)[desc["idx"] % 6]
+    case["line_results"] = {mid: want}
+    tr = simrun.run_case(case)
+    O.abort_violation(tr, out)
+    n = 0
+    for o, ss in tr.samples.items():
+        closed = [s for s in ss if s["phase"] == "closed"]
+        if not closed or closed[-1].get("ladder") != "LINE_RANGE":
+            continue
+        out.rule("line-result")
+        n += 1
+        got = closed[-1].get("line_result")
+        if got is None or got != want:
+            out.v("order-without-the-line-result-at-closure", {"result_is_zero": want == 0}, order=o, got=got, want=want)
+    out.d("line:%s:%d" % (want, min(n, 4)))
+
+
 def run(desc):
     out = O.Out(PROPERTY)
+    if desc["mode"] == "line":
+        run_line(desc, out)
+        return out.result()
     if desc["mode"] == "sim":
         run_sim(desc, out)
     elif desc["mode"] == "live":
